@@ -28,7 +28,16 @@ func bpfBuild(prop string) (string, error) {
 	}
 	out := filepath.Join(verifDir(), "build", "bpf", prop)
 	if real, _ := filepath.EvalSymlinks(repo); real != "/repo" {
-		out = filepath.Join(verifDir(), "build", "alt_bpf", strings.ReplaceAll(strings.Trim(real, "/"), "/", "_"), prop)
+		// scratch tree (mutant / seeded runs): a private directory that no other run's clean-up touches;
+		// callers remove it with bpfCleanup once the objects are loaded
+		if err := os.MkdirAll(filepath.Join(verifDir(), "build", "bpf-scratch"), 0o755); err != nil {
+			return "", err
+		}
+		tmp, err := os.MkdirTemp(filepath.Join(verifDir(), "build", "bpf-scratch"), prop+"-")
+		if err != nil {
+			return "", err
+		}
+		out = tmp
 	}
 	cmd := exec.Command(filepath.Join(verifDir(), "tools", "build_bpf.sh"), out)
 	cmd.Env = append(os.Environ(), "VERIF_REPO="+repo)
@@ -41,6 +50,13 @@ func bpfBuild(prop string) (string, error) {
 		return "", fmt.Errorf("build_bpf.sh failed: %v\n%s", err, s)
 	}
 	return out, nil
+}
+
+// bpfCleanup removes a scratch build directory (no-op for the directory of the real tree).
+func bpfCleanup(dir string) {
+	if strings.Contains(dir, string(filepath.Separator)+"bpf-scratch"+string(filepath.Separator)) {
+		_ = os.RemoveAll(dir)
+	}
 }
 
 func loadLayouts(dir string) (v4, v6 *ebpf.Layout, err error) {
